@@ -123,6 +123,12 @@ def gen_history(rng, sid, s, n, profile="mixed"):
             else:
                 ops.append("key %d 0" % rng.choice(edit_keys))
             continue
+        if profile == "commit" and r < 0.16:
+            ops.append(rng.choice(["commit", "read_commit", "read_commit", "key %d 0" % XK["space"], "key %d 0" % XK["Return"],
+                                   "select_page %d" % rng.randrange(3), "select %d" % rng.randrange(4), "key %d 0" % XK["BackSpace"]]))
+            if ops[-1] == "read_commit" and rng.random() < 0.5:
+                ops.append("read_commit")
+            continue
         if r < 0.34:
             ops.append("key %d 0" % ord(rng.choice(alpha)))
         elif r < 0.38 and delim:
